@@ -3,6 +3,9 @@ table, the classifier and the tick — with objects possibly missing, keys near-
 bridge, clock steps at every deadline — in one generator used by ALL automata-level checks next to their targeted cases."""
 from . import frames as F
 
+COMMON_RULE = ('; plus, in every automata-level check: universal schedules over every public call (objects missing, near-colliding keys, bridged frames, clock steps at every deadline, '
+               'clock origins 0 .. 2^48, the clock moving during a step or a tick), two responders in one process interleaved on the shared clock, and soak cases (one kind of call repeated 300-700 times, thorough 70000)')
+
 MACS = ['020000000011', '020000000012', '020000000013', '020000000111', '030000000011', '0200000000ff']
 OWN = F.OWN
 
